@@ -138,6 +138,26 @@ func parseTxos(s string) []txo {
 
 // ---------------------------------------------------------------- exec (real code)
 
+// watchdog bounds the ops that touch a database or wait for goroutines: on a (mutated) tree that blocks,
+// the case answers "timeout" instead of hanging the run.
+func watchdog(f func() string) string {
+	done := make(chan string, 1)
+	go func() {
+		defer func() {
+			if recover() != nil {
+				done <- "panic"
+			}
+		}()
+		done <- f()
+	}()
+	select {
+	case out := <-done:
+		return out
+	case <-time.After(120 * time.Second):
+		return "timeout"
+	}
+}
+
 // exact returns a copy whose capacity equals its length (reads past the end fault).
 func exact(b []byte) []byte {
 	c := make([]byte, len(b))
@@ -202,9 +222,9 @@ func (P) Exec(line string) string {
 	}
 	switch f[1] {
 	case "chain":
-		return execChain(f[2:])
+		return watchdog(func() string { return execChain(f[2:]) })
 	case "par":
-		return execPar(f[2])
+		return watchdog(func() string { return execPar(f[2]) })
 	case "vlq":
 		n := u64(f[2])
 		return fmt.Sprintf("%s %d", hex.EncodeToString(blockchain.VerifPutVLQ(n)), blockchain.VerifSerializeSizeVLQ(n))
@@ -1266,7 +1286,17 @@ func (P) Generate(g *core.Gen) {
 	// ---- end to end: real chain, real database, flush, reopen with another cache size, exported readers
 	var chainLines []string
 	for i := 0; i < g.N(15, 700); i++ {
-		l := genChainLine(r)
+		l := func() (l string) {
+			defer func() {
+				if recover() != nil {
+					l = ""
+				}
+			}()
+			return genChainLine(r)
+		}()
+		if l == "" {
+			continue
+		}
 		chainLines = append(chainLines, l)
 		rec(g, "chain", true, l)
 	}
